@@ -22,6 +22,8 @@ registry! {
     "C03" => c03,
     "C04" => c04,
     "C05" => c05,
+    "C06" => c06,
+    "C07" => c07,
     "C08" => c08,
     "C09" => c09,
     "C10" => c10,
@@ -45,8 +47,9 @@ registry! {
 pub mod utilsan;
 
 /// Worker-side execution of check-specific requests.
-pub fn worker_custom(check: &str, _payload: Value) -> Value {
+pub fn worker_custom(check: &str, payload: Value) -> Value {
     match check {
+        "C07" => c07::worker(payload),
         _ => Value::Null,
     }
 }
